@@ -1,11 +1,11 @@
 \* Edge cover for the replay on the real FSM (quick tier): <= 2 entries after the
-\* CreateSession, timestamps {0, 6}, compaction time 64 (ts 0 old, ts 6 young; a log
+\* CreateSession, timestamps {0, 4}, compaction time 64 (cutoff 64-60-1 = 3: ts 0 old, ts 4 young only thanks to the 10 s grace; a log
 \* of ts-0 entries is folded completely); EmitEdge prints the history of every
 \* generated transition (2,326 edges, 1,279 states).
 SPECIFICATION Spec
 CONSTANTS
     Alphabet <- AlphaBook
-    TS = {0, 6}
+    TS = {0, 4}
     Nows = {64}
     Prelude <- PreludeSess
     DefaultExp = 60
